@@ -296,7 +296,7 @@ var StructTypes = []reflect.Type{
 	T(CN1{}), T(CN2{}), T(NMapHolder{}),
 	T(ManyF{}), T(ManyL{}),
 	T(Node{}), T(FNode{}), T(Ping{}), T(Pong{}), T(ENode{}), T(DeepNil{}),
-	T(MapAndLists{}), T(Wrap{}), T(WrapList{}), T(PtrTime{}), T(Named{}), T(SelfAny{}), T(SelfAnyList{}), T(PtrConts{}), T(MutA{}), T(MutB{}), T(MpKeyStruct{}), T(MutGraph{}), T(NonASCII{}), T(RecConts{}), T(AmpTop{}), T(AmpN{}), T(FloatMix{}), T(Forest{}), T(CaseTwins{}), T(Bags{}), T(PtrNamed{}), T(NonASCIIFirst{}), T(IntMix{}), T(Empty{}), T(NumMaps{}), T(BaseEnt{}), T(PlainEnt{}), T(AccountEnt{}), T(PtrBaseEnt{}), T(Ents{}), T(NamedLists{}), T(StrMix{}), T(TimeMix{}),
+	T(MapAndLists{}), T(Wrap{}), T(WrapList{}), T(PtrTime{}), T(Named{}), T(SelfAny{}), T(SelfAnyList{}), T(PtrConts{}), T(MutA{}), T(MutB{}), T(MpKeyStruct{}), T(MutGraph{}), T(NonASCII{}), T(RecConts{}), T(AmpTop{}), T(AmpN{}), T(FloatMix{}), T(Forest{}), T(CaseTwins{}), T(Bags{}), T(PtrNamed{}), T(NonASCIIFirst{}), T(IntMix{}), T(Empty{}), T(NumMaps{}), T(BaseEnt{}), T(PlainEnt{}), T(AccountEnt{}), T(PtrBaseEnt{}), T(Ents{}), T(NamedLists{}), T(StrMix{}), T(TimeMix{}), T(Color{}),
 }
 
 // TypeByName finds a zoo struct type.
@@ -751,6 +751,9 @@ type Forest struct {
 // AmpTop / AmpN: every element of a list refers back to the list (queued destinations).
 type AmpTop struct{ L []*AmpN }
 type AmpN struct{ R []interface{} }
+
+// Color: the shape of a Java enum constant on the wire (one field, "name").
+type Color struct{ Name string }
 
 // StrMix / TimeMix: maps keyed by a named string type, and a map of a named (wire-typed) map type in front of
 // two lists of one type.
